@@ -44,7 +44,7 @@ S0 == [gen |-> 0, ph |-> "init", mods |-> [m \in Mods |-> "none"], ifs |-> [i \i
        oldDisc |-> {}, run |-> "no", openR |-> {}, freshR |-> {}, pend |-> FALSE, shutOpen |-> {},
        shutAny |-> FALSE, shutDone |-> FALSE, stopDone |-> FALSE, hooks |-> 0, downs |-> 0,
        crashInj |-> {}, ishReq |-> {}, readyAt |-> 0, mode |-> "", nif |-> 0, nameform |-> "plain",
-       reqGen |-> {}, lateShut |-> {}, aborted |-> FALSE, modsLeft |-> {}, devs |-> {}, rej |-> ""]
+       reqGen |-> {}, kinds |-> <<>>, aborted |-> FALSE, modsLeft |-> {}, devs |-> {}, rej |-> ""]
 
 Fail(s, why) == [s EXCEPT !.rej = why]
 (* the first clause (in list order) that does not hold, "" if all hold *)
@@ -66,7 +66,14 @@ NewGen(s, g) == [s EXCEPT !.gen = g, !.ph = "boot", !.mods = [m \in Mods |-> "no
                           !.rep = [i \in Ifs |-> "none"], !.ann = {}, !.disc = "none", !.hooks = 0,
                           !.pend = FALSE, !.freshR = {}, !.stopDone = FALSE, !.ishReq = {}, !.run = "run"]
 
-H_cfg(s, e) == {[s EXCEPT !.nif = e.nif, !.mode = e.mode, !.nameform = e.nameform]}
+H_cfg(s, e) == {[s EXCEPT !.nif = e.nif, !.mode = e.mode, !.nameform = e.nameform, !.kinds = e.kinds]}
+
+(* what the environment does to interface i at the (re)start of the current generation: an interface whose bind  *)
+(* succeeds at once, after at most four 'address in use' (the retries of TCPServer, 4.5 s) or after a slow (5 s)   *)
+(* constructor has to come up; one that comes up after the time-out may be given up                                *)
+KindOf(s, i) == IF s.gen >= 1 /\ s.gen <= Len(s.kinds) /\ i <= Len(s.kinds[s.gen]) THEN s.kinds[s.gen][i] ELSE "?"
+ComesUp(s, i) == KindOf(s, i) \in {"ok", "inuse1", "inuse2", "inuse3", "inuse4", "slow"}
+StopAsked(s) == s.stopDone \/ s.shutAny \/ s.ishReq # {} \/ s.openR # {} \/ s.pend
 
 H_init(s, e) ==
   Chk(s, << <<s.mode # "noif", "init.no interface given but the constructor accepts">>,
@@ -148,6 +155,7 @@ H_report(s, e) ==
   THEN Chk(s, << <<e.g = s.gen /\ e.i \in Configured(s), "report.which">>,
                  <<s.rep[e.i] = "none", "G3.reported twice">>,
                  <<e.i \notin Listening(s), "G3.a listening interface reported as not started">>,
+                 <<~ComesUp(s, e.i) \/ StopAsked(s) \/ e.i \in s.crashInj, "G3.an interface that can be started is given up">>,
                  <<e.kind = "timeout" => e.vt - s.readyAt >= StartTimeout - 1, "G3.time-out reported before 12 s">>,
                  <<e.kind = "fail" => s.ifs[e.i] \in {"failed", "closed", "crashclosed"}, "G3.failure reported of an interface that did not fail">> >>,
            {[s EXCEPT !.rep[e.i] = e.kind]})
@@ -231,8 +239,9 @@ H_ret(s, e) ==
            {[s EXCEPT !.run = "ret"]})
 
 H_exc(s, e) ==
-  Chk(s, << <<BadCfg(s) /\ e.exc = "SystemExit" /\ s.ph = "boot", "exc.run() raises">>,
-            <<\A m \in Mods : s.mods[m] # "started", "exc.configuration refused but a module was started">> >>,
+  Chk(s, << <<s.ph = "boot" /\ ((BadCfg(s) /\ e.exc = "SystemExit") \/ (s.mode = "startexc" /\ e.exc = "RuntimeError")),
+              "exc.run() raises">>,
+            <<BadCfg(s) => \A m \in Mods : s.mods[m] # "started", "exc.configuration refused but a module was started">> >>,
       {[s EXCEPT !.run = "exc"]})
 
 H_req_b(s, e) ==
@@ -277,7 +286,7 @@ H_quiet(s, e) ==
               "quiet.serving node: responder / poller / sockets of exactly the current generation">>,
             <<s.run = "run" \/ (e.ifalive = <<>> /\ e.listening = <<>>), "S2.interface thread or socket left after the end">>,
             <<s.run = "run" \/ ~s.shutAny \/ (e.discopen = <<>> /\ e.discalive = <<>>), "S2.discovery responder left after the end">>,
-            <<s.run = "run" \/ ToSet(e.polls) \subseteq s.modsLeft, "S2.poll thread left after the end">>,
+            <<s.run = "run" \/ s.mode = "startexc" \/ ToSet(e.polls) \subseteq s.modsLeft, "S2.poll thread left after the end">>,
             <<s.run # "ret" \/ TestOnly(s) \/ s.ph = "noif" \/ s.downs = 1, "S2.'shut down' not logged">> >>,
       {s})
 
